@@ -269,13 +269,8 @@ func (e *Engine) assert(st *State, cond *Term, id string, fn *ssa.Function, cut 
 	default:
 		e.inconc = append(e.inconc, fmt.Sprintf("%s: assertion %s undecided (solver unknown)", e.harness, id))
 	}
-	if cut {
-		return // arithmetic-heavy assertions are not added to the path condition
-	}
-	if e.sat(st, cond) == "unsat" {
-		panic(pathDead{"assert"})
-	}
-	st.addPC(cond)
+	// a failed assertion does not stop the native execution (verifAssert records and continues), so the path
+	// goes on unconstrained: later assertions (possibly of other properties) are still evaluated
 }
 
 // assertHard: arithmetic-heavy assertion sent straight to the one-shot portfolio.
